@@ -586,12 +586,13 @@ fn main() {
                     None
                 };
                 // two jobs that both write one guarded location are where an interleaving can matter at all: such a pair gets a
-                // larger budget in the quick tier too (on a tree whose jobs write no guarded location this costs nothing)
+                // larger budget in the quick tier too, spent on preemptions at the writes first (on a tree whose jobs write no
+                // guarded location neither applies and nothing is spent)
                 let conflicting = written_by[a].intersection(&written_by[b]).next().is_some();
                 let max_runs = if conflicting { max_runs.max(conflict_runs) } else { max_runs };
                 for bound in 1..=bound_max {
                     let mut stats = guard::ExploreStats::default();
-                    let r = guard::explore(&|p| guard::run_child(&exe, &base, p, &hot).map(|x| x.0), &check, bound, max_runs, &mut stats);
+                    let r = guard::explore_ordered(&|p| guard::run_child(&exe, &base, p, &hot).map(|x| x.0), &check, bound, max_runs, &mut stats, conflicting);
                     runs.fetch_add(stats.runs, Ordering::Relaxed);
                     hot_points.fetch_add(stats.hot_points_seen, Ordering::Relaxed);
                     max_points.fetch_max(stats.max_points as u64, Ordering::Relaxed);
